@@ -84,34 +84,40 @@ Inductive event :=
 | EvPushed (u : uid) (tgt : tid) (k : kind) (first : bool)
 | EvIntr (u : uid) (tgt : tid)
 | EvPostRet (u : uid)
-| EvRun (u : uid) (t : tid)
+| EvRun (u : uid) (t : tid) (oid : option idx)
 | EvRet (u : uid)
 | EvSkip (u : uid)
 | EvCwBegin (t : tid) (i : idx)
 | EvCwRet (t : tid) (i : idx) (two : bool).
 
+(* control state of a thread *)
 Record thread := mkT {
   todo : list item;
   proc : option idx;        (* m_callback_processing_id *)
   cur : option uid;         (* ghost: callback this thread is inside *)
   nposted : nat;
+  cwsnap : list (uid * idx) (* ghost: posts under the id that had returned when cancel-wait began *)
+}.
+
+(* the part of a Thread object other threads write: callback queues, flags, poll state *)
+Record mbox := mkB {
   qn : list entry;          (* m_callbacks *)
   qi : list entry;          (* m_interrupt_callbacks *)
   hasn : bool;              (* m_has_callbacks *)
   hasi : bool;              (* m_has_interrupt_callbacks *)
-  intr : bool;              (* poll state has flag_interrupted (target sits in poll) *)
-  cwsnap : list uid         (* ghost: posts under the id that had returned when cancel-wait began *)
+  intr : bool               (* poll state has flag_interrupted (target sits in poll) *)
 }.
 
 Record cfg := mkCfg {
   threads : list thread;
+  boxes : list mbox;                (* same length as threads *)
   ids : list idword;
   bodies : list (list cmd);
   log : list event;                 (* newest first *)
   crashed : bool;                   (* internal_error thrown (count overflow) *)
   posted : list (uid * idx);        (* ghost: posts under an id that have returned *)
-  fin1 : list uid;                  (* ghost: finalised by a returned counter-draining cancel-wait *)
-  fin2 : list uid                   (* ghost: same, for returns of the 0x8 handshake path *)
+  fin1 : list (uid * idx);          (* ghost: finalised by a returned counter-draining cancel-wait *)
+  fin2 : list (uid * idx)           (* ghost: same, for returns of the 0x8 handshake path *)
 }.
 
 Inductive label :=
@@ -135,57 +141,66 @@ Definition ouid_is (o : option uid) (u : uid) : bool :=
   match o with Some v => uid_eqb v u | None => false end.
 
 Definition set_todo (th : thread) (td : list item) : thread :=
-  mkT td (proc th) (cur th) (nposted th) (qn th) (qi th) (hasn th) (hasi th) (intr th) (cwsnap th).
-Definition set_intr (th : thread) : thread :=
-  mkT (todo th) (proc th) (cur th) (nposted th) (qn th) (qi th) (hasn th) (hasi th) true (cwsnap th).
+  mkT td (proc th) (cur th) (nposted th) (cwsnap th).
+Definition set_proc (th : thread) (p : option idx) : thread :=
+  mkT (todo th) p (cur th) (nposted th) (cwsnap th).
+Definition set_cur (th : thread) (p : option uid) : thread :=
+  mkT (todo th) (proc th) p (nposted th) (cwsnap th).
+Definition inc_posted (th : thread) : thread :=
+  mkT (todo th) (proc th) (cur th) (S (nposted th)) (cwsnap th).
+Definition set_snap (th : thread) (s : list (uid * idx)) : thread :=
+  mkT (todo th) (proc th) (cur th) (nposted th) s.
+
+Definition set_intr (b : mbox) : mbox := mkB (qn b) (qi b) (hasn b) (hasi b) true.
+Definition set_hasi (b : mbox) (v : bool) : mbox := mkB (qn b) (qi b) (hasn b) v (intr b).
 (* the locked section of Thread::callback on the TARGET thread object; returns should_interrupt *)
-Definition push_entry (th : thread) (k : kind) (e : entry) : thread * bool :=
+Definition push_entry (b : mbox) (k : kind) (e : entry) : mbox * bool :=
   match k with
   | KIntr =>
-      let first := match qi th with [] => true | _ => false end in
-      (mkT (todo th) (proc th) (cur th) (nposted th) (qn th) (qi th ++ [e]) (hasn th)
-           (if first then true else hasi th) (intr th) (cwsnap th), first)
+      let first := match qi b with [] => true | _ => false end in
+      (mkB (qn b) (qi b ++ [e]) (hasn b) (if first then true else hasi b) (intr b), first)
   | KNormal =>
-      let first := match qn th with [] => true | _ => false end in
-      (mkT (todo th) (proc th) (cur th) (nposted th) (qn th ++ [e])  (qi th)
-           (if first then true else hasn th) (hasi th) (intr th) (cwsnap th), first)
+      let first := match qn b with [] => true | _ => false end in
+      (mkB (qn b ++ [e]) (qi b) (if first then true else hasn b) (hasi b) (intr b), first)
   end.
 
 Definition set_threads (c : cfg) (ts : list thread) : cfg :=
-  mkCfg ts (ids c) (bodies c) (log c) (crashed c) (posted c) (fin1 c) (fin2 c).
+  mkCfg ts (boxes c) (ids c) (bodies c) (log c) (crashed c) (posted c) (fin1 c) (fin2 c).
+Definition set_boxes (c : cfg) (bs : list mbox) : cfg :=
+  mkCfg (threads c) bs (ids c) (bodies c) (log c) (crashed c) (posted c) (fin1 c) (fin2 c).
 Definition set_ids (c : cfg) (ws : list idword) : cfg :=
-  mkCfg (threads c) ws (bodies c) (log c) (crashed c) (posted c) (fin1 c) (fin2 c).
+  mkCfg (threads c) (boxes c) ws (bodies c) (log c) (crashed c) (posted c) (fin1 c) (fin2 c).
 Definition add_log (c : cfg) (evs : list event) : cfg :=
-  mkCfg (threads c) (ids c) (bodies c) (evs ++ log c) (crashed c) (posted c) (fin1 c) (fin2 c).
+  mkCfg (threads c) (boxes c) (ids c) (bodies c) (evs ++ log c) (crashed c) (posted c) (fin1 c) (fin2 c).
 Definition set_crashed (c : cfg) : cfg :=
-  mkCfg (threads c) (ids c) (bodies c) (log c) true (posted c) (fin1 c) (fin2 c).
+  mkCfg (threads c) (boxes c) (ids c) (bodies c) (log c) true (posted c) (fin1 c) (fin2 c).
 Definition add_posted (c : cfg) (u : uid) (oid : option idx) : cfg :=
   match oid with
-  | Some i => mkCfg (threads c) (ids c) (bodies c) (log c) (crashed c) ((u, i) :: posted c) (fin1 c) (fin2 c)
+  | Some i => mkCfg (threads c) (boxes c) (ids c) (bodies c) (log c) (crashed c) ((u, i) :: posted c) (fin1 c) (fin2 c)
   | None => c
   end.
-Definition add_fin (c : cfg) (two : bool) (us : list uid) : cfg :=
-  if two then mkCfg (threads c) (ids c) (bodies c) (log c) (crashed c) (posted c) (fin1 c) (us ++ fin2 c)
-  else mkCfg (threads c) (ids c) (bodies c) (log c) (crashed c) (posted c) (us ++ fin1 c) (fin2 c).
+Definition add_fin (c : cfg) (two : bool) (us : list (uid * idx)) : cfg :=
+  if two then mkCfg (threads c) (boxes c) (ids c) (bodies c) (log c) (crashed c) (posted c) (fin1 c) (us ++ fin2 c)
+  else mkCfg (threads c) (boxes c) (ids c) (bodies c) (log c) (crashed c) (posted c) (us ++ fin1 c) (fin2 c).
 
 Definition set_thread (c : cfg) (t : tid) (th : thread) : cfg := set_threads c (upd (threads c) t th).
+Definition set_box (c : cfg) (t : tid) (b : mbox) : cfg := set_boxes c (upd (boxes c) t b).
 Definition set_id (c : cfg) (i : idx) (w : idword) : cfg := set_ids c (upd (ids c) i w).
 
-Definition snapshot (c : cfg) (i : idx) : list uid :=
-  map fst (filter (fun p => Nat.eqb (snd p) i) (posted c)).
+Definition snapshot (c : cfg) (i : idx) : list (uid * idx) :=
+  filter (fun p => Nat.eqb (snd p) i) (posted c).
 
 (* post returned: ghost bookkeeping *)
 Definition post_ret (c : cfg) (u : uid) (oid : option idx) : cfg :=
   add_log (add_posted c u oid) [EvPostRet u].
 
-(* cancel-wait returned on thread t (whose record is th, already without the finished item) *)
+(* cancel-wait on id i returned on thread t (whose record is th) *)
 Definition cw_ret (c : cfg) (t : tid) (th : thread) (i : idx) (two : bool) : cfg :=
-  let us := filter (fun u => negb (ouid_is (cur th) u)) (cwsnap th) in
+  let us := filter (fun p => Nat.eqb (snd p) i && negb (ouid_is (cur th) (fst p))) (cwsnap th) in
   add_log (add_fin c two us) [EvCwRet t i two].
 
 Definition begin_cw (c : cfg) (t : tid) (th : thread) (i : idx) : cfg * thread :=
-  (add_log c [EvCwBegin t i],
-   mkT (todo th) (proc th) (cur th) (nposted th) (qn th) (qi th) (hasn th) (hasi th) (intr th) (snapshot c i)).
+  (add_log c [EvCwBegin t i], set_snap th (snapshot c i)).
 
 (* the decision after `current_id = id->load()` in cancel_callback_and_wait(id) *)
 Definition cw_after_load (th : thread) (i : idx) (w : idword) : item :=
@@ -193,19 +208,15 @@ Definition cw_after_load (th : thread) (i : idx) (w : idword) : item :=
   else if (cnt w =? 1)%N && negb (oidx_is (proc th) i) then ICwWait i w
   else ICwCas i w.
 
-(* the locked section of process_callbacks: returns (batch, thread) ; batch = [] means return *)
-Definition disp_lock (th : thread) (oi : bool) : list entry * thread :=
-  match qi th with
-  | _ :: _ =>
-      (qi th, mkT (todo th) (proc th) (cur th) (nposted th) (qn th) [] (hasn th) (hasi th) (intr th) (cwsnap th))
+(* the locked section of process_callbacks: returns (batch, box) ; batch = [] means return *)
+Definition disp_lock (b : mbox) (oi : bool) : list entry * mbox :=
+  match qi b with
+  | _ :: _ => (qi b, mkB (qn b) [] (hasn b) (hasi b) (intr b))
   | [] =>
-      if oi then
-        ([], mkT (todo th) (proc th) (cur th) (nposted th) (qn th) [] (hasn th) false (intr th) (cwsnap th))
-      else match qn th with
-        | _ :: _ =>
-            (qn th, mkT (todo th) (proc th) (cur th) (nposted th) [] [] (hasn th) (hasi th) (intr th) (cwsnap th))
-        | [] =>
-            ([], mkT (todo th) (proc th) (cur th) (nposted th) [] [] false false (intr th) (cwsnap th))
+      if oi then ([], mkB (qn b) [] (hasn b) false (intr b))
+      else match qn b with
+        | _ :: _ => (qn b, mkB [] [] (hasn b) (hasi b) (intr b))
+        | [] => ([], mkB [] [] false false (intr b))
         end
   end.
 
@@ -243,31 +254,22 @@ Definition label_of_item (th : thread) (it : item) : label :=
   | ISkipSub _ _ => L_pc_skip_sub
   end.
 
-Definition set_proc (th : thread) (p : option idx) : thread :=
-  mkT (todo th) p (cur th) (nposted th) (qn th) (qi th) (hasn th) (hasi th) (intr th) (cwsnap th).
-Definition set_cur (th : thread) (p : option uid) : thread :=
-  mkT (todo th) (proc th) p (nposted th) (qn th) (qi th) (hasn th) (hasi th) (intr th) (cwsnap th).
-Definition inc_posted (th : thread) : thread :=
-  mkT (todo th) (proc th) (cur th) (S (nposted th)) (qn th) (qi th) (hasn th) (hasi th) (intr th) (cwsnap th).
-Definition set_hasi (th : thread) (b : bool) : thread :=
-  mkT (todo th) (proc th) (cur th) (nposted th) (qn th) (qi th) (hasn th) b (intr th) (cwsnap th).
-
-(* push e into the queue of thread tgt (read AFTER the stepping thread's own update) *)
+(* push e into the mailbox of thread tgt *)
 Definition push_to (c : cfg) (tgt : tid) (k : kind) (e : entry) : option (cfg * bool) :=
-  match nth_error (threads c) tgt with
+  match nth_error (boxes c) tgt with
   | None => None
-  | Some tth => let '(tth', first) := push_entry tth k e in Some (set_thread c tgt tth', first)
+  | Some b => let '(b', first) := push_entry b k e in Some (set_box c tgt b', first)
   end.
 Definition interrupt (c : cfg) (tgt : tid) : option cfg :=
-  match nth_error (threads c) tgt with
+  match nth_error (boxes c) tgt with
   | None => None
-  | Some tth => Some (set_thread c tgt (set_intr tth))
+  | Some b => Some (set_box c tgt (set_intr b))
   end.
 
 Definition start_entry (c : cfg) (t : tid) (th : thread) (e : entry) (rest : list item) : cfg :=
   let body := nth (e_body e) (bodies c) [] in
   add_log (set_thread c t (set_cur (set_todo th (map ICmd body ++ IRet e :: rest)) (Some (e_uid e))))
-          [EvRun (e_uid e) t].
+          [EvRun (e_uid e) t (e_id e)].
 
 (* one step of thread t; None = not enabled (finished, blocked in a wait, or ill-formed target) *)
 Definition step (c : cfg) (t : tid) : option cfg :=
@@ -291,15 +293,11 @@ Definition step (c : cfg) (t : tid) : option cfg :=
                 Some (set_thread c1 t (set_todo (inc_posted th) (IPostLock tgt k i u (upper w) b :: rest)))
           end
       | IPostLock tgt k i u exp b =>
-          match push_to (set_thread c t th0) tgt k (mkE u (Some i) exp b) with
+          match push_to c tgt k (mkE u (Some i) exp b) with
           | None => None
           | Some (c1, first) =>
-              match nth_error (threads c1) t with
-              | None => None
-              | Some th1 =>
-                  Some (add_log (set_thread c1 t (set_todo th1 (IPostSub tgt i u first :: rest)))
-                                [EvPushed u tgt k first])
-              end
+              Some (add_log (set_thread c1 t (set_todo th (IPostSub tgt i u first :: rest)))
+                            [EvPushed u tgt k first])
           end
       | IPostSub tgt i u si =>
           match nth_error (ids c) i with
@@ -310,22 +308,18 @@ Definition step (c : cfg) (t : tid) : option cfg :=
               else Some (post_ret (set_thread c1 t th0) u (Some i))
           end
       | IPostIntr tgt u oid =>
-          match interrupt (set_thread c t th0) tgt with
+          match interrupt c tgt with
           | None => None
-          | Some c1 => Some (post_ret (add_log c1 [EvIntr u tgt]) u oid)
+          | Some c1 => Some (post_ret (add_log (set_thread c1 t th0) [EvIntr u tgt]) u oid)
           end
       | ICmd (Post tgt k None b) =>
           let u := (t, nposted th) in
-          match push_to (set_thread c t (set_todo (inc_posted th) rest)) tgt k (mkE u None (0%N, false) b) with
+          match push_to c tgt k (mkE u None (0%N, false) b) with
           | None => None
           | Some (c1, first) =>
               let c2 := add_log c1 [EvPushed u tgt k first; EvPost u tgt k None] in
-              if first then
-                match nth_error (threads c2) t with
-                | None => None
-                | Some th1 => Some (set_thread c2 t (set_todo th1 (IPostIntr tgt u None :: rest)))
-                end
-              else Some (post_ret c2 u None)
+              if first then Some (set_thread c2 t (set_todo (inc_posted th) (IPostIntr tgt u None :: rest)))
+              else Some (post_ret (set_thread c2 t (set_todo (inc_posted th) rest)) u None)
           end
       | ICmd (Cancel i) =>
           match nth_error (ids c) i with
@@ -414,13 +408,21 @@ Definition step (c : cfg) (t : tid) : option cfg :=
       | ICmd (Dispatch oi) =>
           match cur th with
           | Some _ => Some (set_thread c t th0)                       (* nested dispatch: not modelled, no-op *)
-          | None => Some (set_thread c t (set_todo (set_hasi th false) (IBatch [] oi :: rest)))
+          | None =>
+              match nth_error (boxes c) t with
+              | None => None
+              | Some b => Some (set_thread (set_box c t (set_hasi b false)) t (set_todo th (IBatch [] oi :: rest)))
+              end
           end
       | IBatch [] oi =>
-          let '(batch, th1) := disp_lock th oi in
-          match batch with
-          | [] => Some (set_thread c t (set_todo th1 rest))
-          | _ => Some (set_thread c t (set_todo th1 (IBatch batch oi :: rest)))
+          match nth_error (boxes c) t with
+          | None => None
+          | Some b =>
+              let '(batch, b1) := disp_lock b oi in
+              match batch with
+              | [] => Some (set_thread (set_box c t b1) t th0)
+              | _ => Some (set_thread (set_box c t b1) t (set_todo th (IBatch batch oi :: rest)))
+              end
           end
       | IBatch (e :: es) oi =>
           match e_id e with
@@ -464,10 +466,10 @@ Definition label_at (c : cfg) (t : tid) : option label :=
   | Some th => match todo th with [] => None | it :: _ => Some (label_of_item th it) end
   end.
 
-Definition init_thread (p : list cmd) : thread :=
-  mkT (map ICmd p) None None 0 [] [] false false false [].
+Definition init_thread (p : list cmd) : thread := mkT (map ICmd p) None None 0 [].
 Definition init (progs : list (list cmd)) (nids : nat) (bds : list (list cmd)) : cfg :=
-  mkCfg (map init_thread progs) (repeat (mkW 0 false 0) nids) bds [] false [] [] [].
+  mkCfg (map init_thread progs) (map (fun _ => mkB [] [] false false false) progs)
+        (repeat (mkW 0 false 0) nids) bds [] false [] [] [].
 
 (* a schedule step on a thread that is not enabled leaves the configuration unchanged *)
 Definition sstep (c : cfg) (t : tid) : cfg := match step c t with Some c' => c' | None => c end.
